@@ -8,3 +8,4 @@ INVARIANT InvRoundTrip
 INVARIANT InvAligned
 INVARIANT InvLenAgrees
 INVARIANT InvPredNotBelow
+INVARIANT InvRefusesNonAscii
